@@ -41,7 +41,7 @@ SPEC = dict(
         "goroutine scheduling is modelled by the event list (see C01); change-update notices and Change.SetStatus (explicit change status) are not modelled",
         "the model's abort (quiet status rewrite, then one readiness evaluation) mirrors Change.deferReadyDetection of commit d3068df (notes/C03-fix.diff as applied)",
     ],
-    assumptions=["PARTIAL: proved: Status is ready iff all tasks are ready; Status equals the independently written aggregate, Wait branch included, in every reachable state of a tame history on a closed acyclic graph (and for any task list under explicit graph/no-mixing hypotheses); the ready flag is never reset (all event lists); over all histories in which user aborts hit unready changes only: no panic, IsReady <-> all tasks ready, running handlers belong to unready tasks, an abort of an unready change never panics nor marks the change ready while a task is unready, a ready change is final. NOT proved, only monitored: settling (liveness), Err.",
+    assumptions=["PARTIAL: proved: Status is ready iff all tasks are ready; Status equals the independently written aggregate, Wait branch included, in every reachable state of a tame history on a closed acyclic graph (and for any task list under explicit graph/no-mixing hypotheses); the ready flag is never reset (all event lists); over all histories in which user aborts hit unready changes only: no panic, IsReady <-> all tasks ready, running handlers belong to unready tasks, an abort of an unready change never panics nor marks the change ready while a task is unready, a ready change is final. a task is in Error iff its handler returned an error, Err names exactly those tasks whenever the change reports Error, the status table of a settled change. Settling is proved (C03_settles: after n(5n+1)+5n+1 rounds of Ensure + finishing every running handler, from any tame state without Wait tasks or delayed retries, every task is ready). NOT proved, only monitored: the TEXT of the Err lines (task logs and formatting are not modelled).",
                  "user aborts are issued on unready changes only (daemon.abortChange checks IsReady); the driver also aborts ready changes occasionally to show the guard is needed (C03_abort_ready_refuted) and the monitor ignores those panics only",
                  "finding 11 (Change.Abort on an unready change could panic) is repaired in /repo (d3068df, KNOWN_FINDINGS `fixed:`); the f11 driver entry is its regression test"],
 )
